@@ -407,6 +407,8 @@ def job_file(job) -> report.JobResult:
             hdrs = [("range", "bytes=x")]
         elif mode == "range-garbage":
             hdrs = [("range", "items=0-1")]
+        elif mode.startswith("range-stale"):
+            hdrs = [("range", "bytes=x"), ("if-range", C2.IF_RANGE_TEXT["other"])]
         method = "HEAD" if mode.endswith("head") else "GET"
         ev, done, raised = run_and_check(cur(), iface, app, method=method, hdrs=hdrs)
         if raised:
@@ -439,6 +441,8 @@ def job_file(job) -> report.JobResult:
                     hdrs = [("range", f"bytes={raw['a']}-{raw['b']},{raw['a2']}-{raw['b2']}")]
                 elif mode == "range-garbage":
                     hdrs = [("range", "items=0-1")]
+                elif mode.startswith("range-stale"):
+                    hdrs = [("range", f"bytes={raw['a']}-{raw['b']}"), ("if-range", C2.IF_RANGE_TEXT["other"])]
                 if iface == "asgi":
                     import asyncio as _a
                     sc = scope("HEAD" if mode.endswith("head") else "GET", [(k.encode(), v.encode()) for k, v in hdrs])
@@ -456,7 +460,7 @@ def job_file(job) -> report.JobResult:
                         return f"exception {type(ex).__name__}: {ex}"
                     gw.check_asgi(_PlainEngine(), evs, done)
                 else:
-                    ev, done = gw.run_wsgi(app, environ("HEAD" if mode.endswith("head") else "GET", **{"HTTP_" + k.upper(): v for k, v in hdrs}))
+                    ev, done = gw.run_wsgi(app, environ("HEAD" if mode.endswith("head") else "GET", **{"HTTP_" + k.upper().replace("-", "_"): v for k, v in hdrs}))
                     r = [x for x in ev if x[0] == "raise"]
                     if r:
                         return f"exception {type(r[0][1]).__name__}: {r[0][1]}"
@@ -492,7 +496,7 @@ def jobs(tier: str):
         for cls in ("stream", "sse"):
             for n in range(0, b["stream_items"] + 1):
                 out.append(dict(name=f"stream/{iface}/{cls}/n{n}", kind="stream", iface=iface, cls=cls, items=n, weight=20 * (n + 1) ** 2))
-        for mode in ("plain", "download-name", "download-name-head", "range", "range-head", "range2", "range2-head", "range-garbage", "plain-head"):
+        for mode in ("plain", "download-name", "download-name-head", "range", "range-head", "range2", "range2-head", "range-garbage", "plain-head", "range-stale", "range-stale-head"):
             for n in ((1, 2) if mode.startswith("download-name") else (1,)):
                 out.append(dict(name=f"file/{iface}/{mode}/n{n}", kind="file", iface=iface, mode=mode, n=n, recipe="file", weight=30))
     out.append(dict(name="twin/small", kind="small", iface="asgi", recipe="response", what="header", n=1, twin=True))
